@@ -371,6 +371,12 @@ func (s *spanScreen) rawWriteSpan(x int, y int, sp Span, cr ChangeReason) {
 		panic(fmt.Sprintf("rawWriteSpan out of range: %v  %v,%v,%v %v\n", s.size, x, y, x+sp.Width, sp.Width))
 	}
 	replaceRange(&s.lines[y], x, sp.Width, sp, s.textMode)
+	if lineCellWidth(&s.lines[y]) > s.size.X {
+		// The write started inside a wide character, which was kept: the row grew.
+		truncateLine(&s.lines[y], s.size.X, s.textMode)
+		s.frontend.RegionChanged(Region{Y: y, Y2: y + 1, X: x, X2: s.size.X}, cr)
+		return
+	}
 	s.frontend.RegionChanged(Region{Y: y, Y2: y + 1, X: x, X2: x + sp.Width}, cr)
 }
 
